@@ -99,6 +99,7 @@ theorem suitesWf_inner (k : Nat) (inner rest : List SEv) (h : noSuiteEvents inne
 
 theorem endOf_noSuite (s : Suite) : noSuiteEvents (endOf s).2.1 = true := by
   unfold endOf; cases s.ending <;> simp [noSuiteEvents]
+  split <;> simp
 
 theorem threadEvents_wf (k : Nat) (suites : List Suite) (h : ∀ s ∈ suites, noSuiteEvents s.scen = true) :
     suites ≠ [] → suitesWf none (threadEvents k suites) = true := by
